@@ -68,6 +68,8 @@ FUNCS = [
          params=[("outcome", "idx")], ret="St", self="ens"),
     dict(key="StateEnsemble", file="quara/objects/state_ensemble.py", cls="StateEnsemble", name="__init__", coq="gen_ens_init",
          params=[("states", "list:St"), ("prob_dist", "md"), ("eps_zero", "F")], ret="ens", ctor="ens"),
+    dict(key="_compose_qoperations_MProcess_State", file="quara/objects/operators.py", cls=None, name="_compose_qoperations_MProcess_State",
+         coq="gen_compose_mprocess_state", params=[("elem1", "mp"), ("elem2", "St")], ret="ens", opaque_if="elem1.mode_sampling"),
     dict(key="_compose_qoperations_MProcess_StateEnsemble", file="quara/objects/operators.py", cls=None, name="_compose_qoperations_MProcess_StateEnsemble",
          coq="gen_compose_mprocess_ensemble", params=[("elem1", "mp"), ("elem2", "ens")], ret="ens",
          locals={"states": "list:St", "ps": "list:F"}, opaque_if="elem1.mode_sampling"),
@@ -374,9 +376,9 @@ class Fn:
             return a, "ix"
         if fn == "np.array" and len(e.args) == 1 and not kws:
             a, ta = self.expr(e.args[0], env, binds)
-            if ta != "list:Z":
+            if ta not in ("list:Z", "list:F"):
                 fail(e, "np.array of %s" % ta)
-            return a, "list:Z"
+            return a, ta                    # a copy: same value, no aliasing with the argument (the result of a call is never an alias)
         if fn == "max" and len(e.args) == 2 and not kws:
             a, ta = self.expr(e.args[0], env, binds, hint="F")
             b, tb = self.expr(e.args[1], env, binds, hint="F")
@@ -653,12 +655,15 @@ class Fn:
                 and ast.unparse(s.value.func) == "_compose_qoperations_MProcess_State_for_States":
             tg = s.targets[0]
             c = s.value
-            if len(tg.elts) != 2 or not all(isinstance(x, ast.Name) for x in tg.elts) or c.keywords or len(c.args) != 3 \
+            if len(tg.elts) != 2 or not all(isinstance(x, ast.Name) for x in tg.elts) or c.keywords or len(c.args) not in (2, 3) \
                     or not (isinstance(c.args[0], ast.Name) and c.args[0].id == self.spec["params"][0][0] and self.spec["params"][0][1] == "mp"):
                 fail(s, "oracle call")
             binds = []
             a, ta = self.expr(c.args[1], env, binds)
-            b, tb = self.expr(c.args[2], env, binds)
+            if len(c.args) == 3:
+                b, tb = self.expr(c.args[2], env, binds)
+            else:
+                b, tb = FLOATS[1.0], "F"          # the oracle's default weight=1.0 (checked in main)
             if (ta, tb) != ("St", "F"):
                 fail(s, "oracle arguments %s, %s" % (ta, tb))
             env2 = self.bind_var(env, tg.elts[0].id, "list:St", s)
@@ -1188,7 +1193,8 @@ def main():
         # the oracle must be the module-level function of operators.py, and MultinomialDistribution must be iterable only through __getitem__
         ops_tree = trees["quara/objects/operators.py"]
         orc = [n for n in ops_tree.body if isinstance(n, ast.FunctionDef) and n.name == "_compose_qoperations_MProcess_State_for_States"]
-        if len(orc) != 1 or [x.arg for x in orc[0].args.args] != ["elem1", "elem2", "weight"]:
+        if len(orc) != 1 or [x.arg for x in orc[0].args.args] != ["elem1", "elem2", "weight"] or len(orc[0].args.defaults) != 1 \
+                or not (isinstance(orc[0].args.defaults[0], ast.Constant) and type(orc[0].args.defaults[0].value) is float and orc[0].args.defaults[0].value == 1.0):
             raise Unsupported("oracle _compose_qoperations_MProcess_State_for_States(elem1, elem2, weight) not found")
         _f, md_c = find_def(trees["quara/objects/multinomial_distribution.py"], "MultinomialDistribution", "__getitem__")
         if any(isinstance(n, ast.FunctionDef) and n.name in ("__iter__", "__next__", "__len__") for n in md_c.body) or md_c.bases:
